@@ -28,6 +28,7 @@ type Task struct {
 	wake   baton
 	fin    chan struct{}
 	joinAt uint32 // address used for the task-end -> Join happens-before edge
+	polling bool  // inside SelectWait: its own scheduling step is not progress
 	state  taskState
 	ready  func() bool
 	why    string
@@ -101,6 +102,8 @@ type Sim struct {
 	lastSite int32
 	polSet   bool
 	budget   int64
+	prog     uint64 // bumped whenever anything other than a polling retry happens
+	timers   []*simTimer
 	pol      int
 	// ClockSkew is added to every clock reading (clock faults).
 	ClockSkew int64
@@ -355,11 +358,15 @@ func (s *Sim) resched(t *Task) {
 func (s *Sim) pick(t *Task) *Task {
 	s.steps++
 	t.Steps++
+	if !t.polling {
+		s.prog++
+	}
 	if s.steps > s.cfg.MaxSteps {
 		s.Truncated = true
 		return nil
 	}
 	for {
+		s.fireTimers()
 		run := s.runbuf[:0]
 		tIn := false
 		for _, x := range s.tasks {
@@ -397,6 +404,11 @@ func (s *Sim) pick(t *Task) *Task {
 					min = x.wakeAt
 				}
 			}
+			for _, tm := range s.timers {
+				if min < 0 || tm.at < min {
+					min = tm.at
+				}
+			}
 			if min < 0 {
 				s.Stuck = true
 				s.StuckInfo = s.describe()
@@ -407,6 +419,7 @@ func (s *Sim) pick(t *Task) *Task {
 				return nil
 			}
 			s.now = min
+			s.prog++
 			continue
 		}
 		idx := 0
@@ -709,4 +722,154 @@ func Finding(clause, format string, a ...interface{}) {
 	}
 	s.Findings = append(s.Findings, Violation{Clause: clause, Msg: fmt.Sprintf(format, a...)})
 	Log("FINDING %s", clause)
+}
+
+// ---- channels, select and timers of the code under test ----
+//
+// zinstr turns a blocking select into a polling one (a default clause that calls
+// SelectWait and jumps back), `ch <- v` into Send, `<-ch` into Recv/Recv2 and
+// time.After/Tick into After/Tick. The channel operations themselves stay real
+// and non-blocking; what the simulator owns is the waiting: a task that found
+// nothing ready parks until something else has happened (an instrumented
+// statement executed by anyone, a scheduling step of a task that is not itself
+// retrying, a timer, the clock), and a state in which only such tasks remain
+// and no timer is pending is a stuck state like any other.
+
+type simTimer struct {
+	at     int64
+	period int64
+	ch     chan time.Time
+}
+
+//go:norace
+func (s *Sim) fireTimers() {
+	for i := 0; i < len(s.timers); {
+		tm := s.timers[i]
+		if tm.at > s.now {
+			i++
+			continue
+		}
+		select {
+		case tm.ch <- BaseTime.Add(time.Duration(s.now)):
+		default:
+		}
+		s.prog++
+		if tm.period > 0 {
+			tm.at += tm.period
+			i++
+			continue
+		}
+		for k := i; k+1 < len(s.timers); k++ {
+			s.timers[k] = s.timers[k+1]
+		}
+		s.timers = s.timers[:len(s.timers)-1]
+	}
+}
+
+// After is time.After on the simulated clock.
+//
+//go:norace
+func After(d time.Duration) <-chan time.Time {
+	s := S
+	if s == nil || s.dying {
+		return time.After(d)
+	}
+	if d < 0 {
+		d = 0
+	}
+	tm := &simTimer{at: s.now + int64(d), ch: make(chan time.Time, 1)}
+	s.timers = append(s.timers, tm)
+	return tm.ch
+}
+
+// Tick is time.Tick on the simulated clock.
+//
+//go:norace
+func Tick(d time.Duration) <-chan time.Time {
+	s := S
+	if s == nil || s.dying {
+		return time.Tick(d)
+	}
+	if d <= 0 {
+		return nil
+	}
+	tm := &simTimer{at: s.now + int64(d), period: int64(d), ch: make(chan time.Time, 1)}
+	s.timers = append(s.timers, tm)
+	return tm.ch
+}
+
+// SelectWait parks a task whose non-blocking channel operation found nothing
+// ready until something else has happened.
+//
+//go:norace
+func SelectWait() {
+	s := S
+	if s == nil {
+		time.Sleep(20 * time.Microsecond)
+		return
+	}
+	if s.dying {
+		runtime.Goexit()
+	}
+	t := s.cur
+	my := s.prog
+	t.state = stBlocked
+	t.why = "channel operation / select"
+	t.ready = func() bool { return s.prog != my }
+	t.polling = true
+	if s.cfg.Trace {
+		Log("block: select/channel")
+	}
+	s.resched(t)
+	t.polling = false
+}
+
+// BlockForever is `select {}`.
+//
+//go:norace
+func BlockForever() {
+	if S == nil {
+		select {}
+	}
+	Block("select {}", func() bool { return false })
+}
+
+// Send is `ch <- v`.
+func Send[T any](ch chan<- T, v T) {
+	if S == nil {
+		ch <- v
+		return
+	}
+	Yield("chan send")
+	for {
+		select {
+		case ch <- v:
+			return
+		default:
+			SelectWait()
+		}
+	}
+}
+
+// Recv is `<-ch` with its value.
+func Recv[T any](ch <-chan T) T {
+	v, _ := Recv2(ch)
+	return v
+}
+
+// Recv2 is `v, ok := <-ch`.
+func Recv2[T any](ch <-chan T) (T, bool) {
+	if S == nil {
+		v, ok := <-ch
+		return v, ok
+	}
+	Yield("chan recv")
+	for {
+		select {
+		case v, ok := <-ch:
+			return v, ok
+		default:
+			SelectWait()
+		}
+	}
 }
